@@ -206,7 +206,7 @@ def alias_scan(a, b):
 
 def gen_cases(ctx):
     rng = ctx.rng
-    n = ctx.n(2400, 48000)
+    n = ctx.n(7200, 96000)
     for i in range(n):
         cls = CLASS_NAMES[i % 4]
         ds = [d for d in DERIVATIONS if applicable(cls, d)]
